@@ -44,9 +44,13 @@ lemma_check() {
   return $rc
 }
 
+# every group that exists, in import order
+ALL=""
+for g in Read Write Append TTH TTH2 Skip Fc Stream Tpl TTHDecode StreamW; do [ -f $V/lean/Verif/Lemmas/Funcs/$g.lean ] && ALL="$ALL $g"; done
+
 fresh; gen "$S/base.lean"
 echo "== baseline: $(grep -c '^def ' "$S/base.lean") defs, $(grep -c UNSUPPORTED "$S/base.lean") unsupported; lemma files against it:"
-lemma_check "$S/base.lean" Read Write Append TTH TTH2 Skip && echo "   all ok" || echo "   FAILS (unexpected)"
+lemma_check "$S/base.lean" $ALL && echo "   all ok ($ALL )" || echo "   FAILS (unexpected)"
 
 mutant() { # name, file, sed expression, group
   fresh
@@ -84,7 +88,7 @@ mutant "IsStreaming flag mask"           protocol/ttheader/utils.go 's/&uint16(H
 fi
 
 if [ "${1:-all}" != "mutants" ]; then
-for p in $V/seeded/harmless/refac*.diff $V/seeded/harmless/refactor_skipstr.diff $V/seeded/harmless/structural/refac*.diff $V/seeded/harmless/funcs/*.diff; do
+for p in $V/seeded/harmless/refac*.diff $V/seeded/harmless/refactor_skipstr.diff $V/seeded/harmless/structural/refac*.diff $V/seeded/harmless/funcs/*.diff $V/seeded/harmless/funcs2/*.diff; do
   [ -f "$p" ] || continue
   fresh
   ( cd "$S/repo" && git apply --whitespace=nowarn "$p" 2>/dev/null ) || { echo "== harmless $(echo $p | sed "s|$V/seeded/harmless/||"): does not apply to the current tree (skipped)"; continue; }
@@ -92,7 +96,7 @@ for p in $V/seeded/harmless/refac*.diff $V/seeded/harmless/refactor_skipstr.diff
   n=$(diff <(defs "$S/base.lean") <(defs "$S/h.lean") | grep -c '^[<>]')
   u=$(grep -c UNSUPPORTED "$S/h.lean")
   if [ "$n" = 0 ]; then echo "== harmless $(echo $p | sed "s|$V/seeded/harmless/||"): generated definitions identical"; continue; fi
-  if lemma_check "$S/h.lean" Read Write Append TTH TTH2 Skip; then echo "== harmless $(echo $p | sed "s|$V/seeded/harmless/||"): $n changed lines, $u unsupported; all lemma files still check"
+  if lemma_check "$S/h.lean" $ALL; then echo "== harmless $(echo $p | sed "s|$V/seeded/harmless/||"): $n changed lines, $u unsupported; all lemma files still check"
   else echo "== harmless $(echo $p | sed "s|$V/seeded/harmless/||"): $n changed lines, $u unsupported; A LEMMA FILE NO LONGER CHECKS (see above)"; fi
 done
 fi
